@@ -1937,3 +1937,30 @@ def plan_steps(perm, trees, lazy=True):
         steps.append({'op': 'transpose', 'x': -1, 'axes': perm})
     steps += tree_build_steps(trees, -1)
     return steps
+
+
+# ---- inputs for factorisation checks (C04, C13, C18) ---------------------------------------------------------
+
+DECOR = {name: 0.0 for name in OPS}
+DECOR.update({'transpose': 2.0, 'fuse': 1.5, 'conj': 0.5, 'consume_transpose': 0.5, 'unfuse': 0.5, 'flip_signature': 0.3})
+
+
+def draw_input_program(data, tier, values=None, min_rank=2, max_rank=4):
+    """A tensor with float / integer data plus 0-2 decorations (lazy transposes, fusions)."""
+    from hypothesis import strategies as st
+    cfg = draw_cfg(data)
+    _CUR_POOL.clear()
+    if not chance(data, 1, 6):
+        draw_charge_pool(data, cfg['sym'], tier)
+    rank = data.draw(st.sampled_from([r for r in [2, 3, 4, 3, 5, 2] if min_rank <= r <= max_rank]))
+    td = draw_tensor_desc(data, cfg, tier, rank=rank)
+    first = {'op': 'new', 'td': td, 'values': values or data.draw(st.sampled_from(['float', 'float', 'int']))}
+    prog = draw_program(data, tier, cfg=cfg, min_steps=0, max_steps=2, weights=DECOR, partner_prob=0.0, first=first)
+    return prog
+
+
+def last_tensor(prog):
+    state, yp, info = execute_program(prog, observers=False)
+    return yp[-1], state.pool[-1]
+
+
